@@ -14,7 +14,7 @@ import (
 func init() { Registry["C12"] = checkC12 }
 
 func checkC12(p *core.Prog, r *core.Report) {
-	r.Explanation = "Decides structural necessary conditions of election safety on the acceptor side: (R1) every store to the acceptor's accepted number (ArbiterVoter.proposalId) in the proposal handlers happens under the voter mutex on a path that tested new > accepted, new > committed and 'no commit outstanding' (proposalHost empty); every store to the committed number (commitId) in the commit handlers happens under the mutex on a path that tested 'this is the accepted proposal' and new > committed; all other stores to the two numbers are listed lifecycle sites (constructor, load from saved metadata, configuration, leaving the set, the candidate's own bookkeeping after a majority); (R3) the candidate's vote / proposal / commit rounds succeed only with at least len(members)/2+1 answers; (R4) in DoVote a reply becomes the selected candidate only after the eligibility filter (data member, non-zero weight) for that reply, and replaces the selection only on newer log / greater weight / greater host; (R5) the proposal handlers refuse before accepting when the member's own log is newer (CompareAofId(own, proposed) > 0 for a voting data member). (R6) the acceptor's outstanding-commit marker (proposalHost) is cleared only at a closed list of points. (R7) the comparator of log positions weighs the id bytes the way the log writes them (file index major, record number minor). (R8, shared with C16/R7) every list of log files built from FindAofFiles - including the one LoadMaxAofId scans from its end for the position a member restarts with - puts the snapshot before the append files. NOT decided: any interleaving of two candidates, message loss, that at most one winner emerges, persistence of the committed number across a restart (the candidate-side stores and the save points are listed, not proven), kill -9 of a real cluster."
+	r.Explanation = "Decides structural necessary conditions of election safety on the acceptor side: (R1) every store to the acceptor's accepted number (ArbiterVoter.proposalId) in the proposal handlers happens under the voter mutex on a path that tested new > accepted, new > committed and 'no commit outstanding' (proposalHost empty); every store to the committed number (commitId) in the commit handlers happens under the mutex on a path that tested 'this is the accepted proposal' and new > committed; all other stores to the two numbers are listed lifecycle sites (constructor, load from saved metadata, configuration, leaving the set, the candidate's own bookkeeping after a majority); (R3) the candidate's vote / proposal / commit rounds succeed only with at least len(members)/2+1 answers; (R4) in DoVote a reply becomes the selected candidate only after the eligibility filter (data member, non-zero weight) for that reply, and replaces the selection only on newer log / greater weight / greater host; (R5) the proposal handlers refuse before accepting when the member's own log is newer (CompareAofId(own, proposed) > 0 for a voting data member). (R6) the acceptor's outstanding-commit marker (proposalHost) is cleared only at a closed list of points. (R7) the comparator of log positions weighs the id bytes the way the log writes them (file index major, record number minor). (R8, shared with C16/R7) every list of log files built from FindAofFiles - including the one LoadMaxAofId scans from its end for the position a member restarts with - puts the snapshot before the append files. (R9) every store that raises the committed number from a commit is followed by a save of the member state (none is: known findings - a restarted acceptor forgets the commit it answered). NOT decided: any interleaving of two candidates, message loss, that at most one winner emerges, persistence of the committed number across a restart (the candidate-side stores and the save points are listed, not proven), kill -9 of a real cluster."
 	r.Assumptions = []string{"Go type checker, go/ssa and VTA call graph are correct for /repo", "the voter mutex serialises the acceptor handlers"}
 	c12R1(p, r)
 	c12R3(p, r)
@@ -22,6 +22,7 @@ func checkC12(p *core.Prog, r *core.Report) {
 	c12R5(p, r)
 	c12R6(p, r)
 	c12R7(p, r)
+	c12R9(p, r)
 	logFileOrderRule(p, r, "C12/R8") // the position a member restarts with (LoadMaxAofId) reads the same list, newest last
 }
 
@@ -752,5 +753,69 @@ func c12R7(p *core.Prog, r *core.Report) {
 		if !found[pr.Name()] {
 			r.Fail("C12/R7: no byte-wise position word found for operand %s of CompareAofId (comparator form not recognised: not decided)", pr.Name())
 		}
+	}
+}
+
+// c12R9: the committed number is the acceptor's promise; "at most one member
+// wins an election number" has to survive a restart of an acceptor between
+// two candidates' commit rounds. meta.pb carries CommitId, so every function
+// that raises the in-memory committed number from a commit (a store to
+// ArbiterVoter.commitId whose value is not a constant and not read from the
+// saved metadata) saves the member state before it returns.
+func c12R9(p *core.Prog, r *core.Report) {
+	const rule = "C12/R9"
+	r.Rule(rule, "every store that raises ArbiterVoter.commitId from a commit is followed, in the same function, by ArbiterStore.Save", 2)
+	n := 0
+	for _, fn := range p.FuncsIn("server") {
+		if fn.Blocks == nil {
+			continue
+		}
+		var saves []ssa.Instruction
+		for _, b := range fn.Blocks {
+			for _, ins := range b.Instrs {
+				if c := core.StaticCallee(ins); c != nil && c.Name() == "Save" && strings.Contains(recvName(c), "ArbiterStore") {
+					saves = append(saves, ins)
+				}
+			}
+		}
+		ord := 0
+		for _, b := range fn.Blocks {
+			for _, ins := range b.Instrs {
+				st, ok := ins.(*ssa.Store)
+				if !ok {
+					continue
+				}
+				k, ok := storeKey(st.Addr)
+				if !ok || k != fk("server.ArbiterVoter", "commitId") {
+					continue
+				}
+				if _, isConst := st.Val.(*ssa.Const); isConst {
+					continue // reset
+				}
+				// restored from the saved metadata
+				if u, ok := st.Val.(*ssa.UnOp); ok {
+					if kk, ok := storeKey(u.X); ok && kk.Type == "protobuf.ReplSet" {
+						continue
+					}
+				}
+				ord++
+				n++
+				key := fmt.Sprintf("%s: commitId raised#%d", core.FuncName(fn), ord)
+				saved := false
+				for _, s := range saves {
+					if instrDominates(ins, s) {
+						saved = true
+					}
+				}
+				if saved {
+					r.Hold(rule, key, p.InstrPos(ins), "member state saved afterwards")
+				} else {
+					r.Violate(rule, key, p.InstrPos(ins), "the committed number is raised in memory only: a member that answered a candidate's commit and is restarted from meta.pb comes back with the old CommitId (and no pending-commit marker) and commits an overlapping candidate's proposal of the same number - two members win one election number", nil)
+				}
+			}
+		}
+	}
+	if n == 0 {
+		r.Fail("C12/R9: no store raises ArbiterVoter.commitId")
 	}
 }
